@@ -6,13 +6,13 @@ from .. import replay as rp
 from .setops import premise_group, bits_for, fnr, decode_ab, prog_ab, built
 
 from ..validate import validation_group
-BOUNDS = {'quick': {'alternatives_of_A': '1..2', 'alternatives_of_B': 1}, 'thorough': {'alternatives_of_A': '1..4', 'alternatives_of_B': 1}}
+BOUNDS = {'quick': {'alternatives_of_A': '1..2', 'alternatives_of_B': 1}, 'thorough': {'alternatives_of_A': '1..6', 'alternatives_of_B': 1}}
 OUTSIDE = ['multi-alternative B (deliberately left out by the property)', 'parser / Display', 'more alternatives than the bound']
 ASSUMPTIONS = ['rank mode is sound given C04', 'std models are transcriptions of the pinned nightly rust-src', 'every BoundSet is built by BoundSet::new']
 
 
 def groups(tier):
-    K = 2 if tier == 'quick' else 4
+    K = 2 if tier == 'quick' else 6
     gs = [{'name': 'rank-%dx1' % ka, 'fn': rank_group, 'rank_fallback': True, 'args': {'ka': ka}} for ka in range(1, K + 1)]
     gs += [{'name': 'self-%d' % ka, 'fn': self_group, 'args': {'ka': ka}} for ka in range(1, K + 1)]
     gs += [{'name': 'hybrid-%dx1' % ka, 'fn': hybrid_group, 'args': {'ka': ka}} for ka in range(1, K + 1)]
